@@ -64,8 +64,7 @@ class UnitRegistry:
             ret = self.lut[str(key)]
         except KeyError:
             try:
-                _lookup_unit_symbol(str(key), self.lut)
-                ret = self.lut[str(key)]
+                ret = _lookup_unit_symbol(str(key), self.lut)
             except UnitParseError:
                 raise SymbolNotFoundError(
                     f"The symbol '{key}' does not exist in this registry."
@@ -163,6 +162,8 @@ class UnitRegistry:
 
         # Add to lut
         self.lut[symbol] = (base_value, dimensions, offset, tex_repr, prefixable)
+        # cached Unit objects may have been built from an older definition
+        self._unit_object_cache.clear()
 
     def remove(self, symbol):
         """
@@ -184,8 +185,8 @@ class UnitRegistry:
             )
 
         del self.lut[symbol]
-        if symbol in self._unit_object_cache:
-            del self._unit_object_cache[symbol]
+        # prefixed and compound expressions depend on the symbol as well
+        self._unit_object_cache.clear()
 
     def modify(self, symbol, base_value):
         """
@@ -217,8 +218,8 @@ class UnitRegistry:
             new_dimensions = self.lut[symbol][1]
 
         self.lut[symbol] = (float(base_value), new_dimensions) + self.lut[symbol][2:]
-        if symbol in self._unit_object_cache:
-            del self._unit_object_cache[symbol]
+        # prefixed and compound expressions depend on the symbol as well
+        self._unit_object_cache.clear()
 
     def keys(self):
         """
@@ -330,8 +331,8 @@ def _lookup_unit_symbol(symbol_str, unit_symbol_lut):
             False,
         )
 
-        unit_symbol_lut[symbol_str] = ret
-
+        # the derived row is not stored: it would go stale when the
+        # unprefixed symbol is modified or removed
         return ret
 
     # no dice
